@@ -311,6 +311,9 @@ theorem readSelectionSet_spec : ∀ (n : Nat) (p : P), 2 * p.mu + 4 ≤ n →
         have hd : p0.onDeck = b0 := by
           have := skipSp_deck cm p b0 (by rw [h0]) (by rw [h123]; decide); rwa [h0] at this
         have ltr : Lt (reRead p0) p := (reRead_lt p0 (by rw [hd, h123]; decide)).trans_le l0
+        by_cases htd : tooDeep cm (reRead p0) = true
+        · simp only [htd, if_true]; exact ⟨ltr.le, fun _ => ltr⟩
+        simp only [htd, Bool.false_eq_true, if_false]
         have hfu : 2 * (reRead p0).enter.mu + 4 ≤ n := by have := ltr.2; simp; omega
         have ih := selLoop_spec n (reRead p0).enter 0 hfu
         have : Lt (selLoop cm n (reRead p0).enter 0).2.leave p :=
